@@ -6,7 +6,7 @@ P=$(readlink -f "$1"); PROPS=$2; REV=${3:-}
 WT=$(mktemp -d /tmp/tp.XXXXXX)
 git -C /repo worktree add -q --detach "$WT/r" HEAD || exit 3
 if ! git -C "$WT/r" apply $REV "$P"; then echo "PATCH DOES NOT APPLY"; git -C /repo worktree remove --force "$WT/r"; rm -rf "$WT"; exit 3; fi
-/verif/bin/specvet -repo "$WT/r" -prop "$PROPS" -known /verif/known_findings.json | grep -v "^VIOLATION" | sed "s#$WT/r/##g" | cut -c1-420
+${SPECVET:-/verif/bin/specvet} -repo "$WT/r" -prop "$PROPS" -known /verif/known_findings.json | grep -v "^VIOLATION" | sed "s#$WT/r/##g" | cut -c1-420
 rc=${PIPESTATUS[0]}
 git -C /repo worktree remove --force "$WT/r"; rm -rf "$WT"
 exit $rc
